@@ -16,6 +16,10 @@
 //   thread 0: start ;
 //   thread t+1: complete_<ch> <t> <arg> ;
 //   endcase
+//   case <id> kind=schedule_from seed=<n> strat=<..> [life=1]      (C03x: life cycle of the schedule_from operation state)
+//   thread a: start ;   thread b: complete_<ch> 0 <arg> ;   thread c: sched_<ch> <arg> ;   (ops may share threads;
+//   a completion requested before its operation state was started is delivered inline inside that start)
+//   endcase
 // Channels: 0 = value, 1 = stopped, 2 = error.
 // Harness events: inv.complete idx arg / inv.consume k 0 / inv.start 0 0 / ret,
 //   fire.value|fire.stopped|fire.error idx arg, rcv.value k v / rcv.error k code / rcv.stopped k 0.
@@ -61,6 +65,37 @@ static long long code_of(std::exception_ptr const& ep)
     }
 }
 
+// ---------------------------------------------------------------- COUNTED VALUE (C03x)
+// The value type of the schedule_from cases: a copy / move construction is the adaptor storing the value in its
+// operation state (`ts.emplace`): preemption point + line `sf.store`; the destruction of such a stored instance
+// is the line `sf.tsdtor`.  Temporaries made from an int (the leaf's argument) are silent.
+struct cval
+{
+    int v;
+    bool stored;
+    explicit cval(int v_) noexcept
+      : v(v_)
+      , stored(false)
+    {
+    }
+    cval(cval&& o) noexcept
+      : v((verif::pt("sf.store", nullptr, o.v, 0), o.v))
+      , stored(true)
+    {
+    }
+    cval(cval const& o) noexcept
+      : v((verif::pt("sf.store", nullptr, o.v, 1), o.v))
+      , stored(true)
+    {
+    }
+    cval& operator=(cval&&) = delete;
+    cval& operator=(cval const&) = delete;
+    ~cval()
+    {
+        if (stored) verif::nt("sf.tsdtor", nullptr, v, 0);
+    }
+};
+
 // ---------------------------------------------------------------- MANUAL LEAF
 struct trigger
 {
@@ -102,6 +137,7 @@ struct manual_op
             if (ch == 0)
             {
                 if constexpr (std::is_same_v<Val, int>) ex::set_value(std::move(rr), int(arg));
+                else if constexpr (std::is_same_v<Val, cval>) ex::set_value(std::move(rr), cval(int(arg)));
                 else ex::set_value(std::move(rr), std::tuple<int, int>(int(arg), int(arg) + 100));
             }
             else if (ch == 2)
@@ -139,7 +175,12 @@ struct manual_sender
 template <class T>
 static void enc_add(long long& enc, long long& mul, T const& v)
 {
-    if constexpr (std::is_same_v<std::decay_t<T>, std::vector<int>>)
+    if constexpr (std::is_same_v<std::decay_t<T>, cval>)
+    {
+        enc += (long long) v.v * mul;
+        mul *= 16;
+    }
+    else if constexpr (std::is_same_v<std::decay_t<T>, std::vector<int>>)
     {
         for (int x : v)
         {
@@ -177,6 +218,77 @@ struct term_recv
     }
     void set_stopped() && noexcept { nt("rcv.stopped", nullptr, k, 0); }
     constexpr ex::empty_env get_env() const& noexcept { return {}; }
+};
+
+// ---------------------------------------------------------------- MANUAL SCHEDULER (C03x)
+// `schedule(manual_scheduler)` is a sender whose operation state completes when the case's `sched_<ch>` op fires
+// the trigger: on the thread of that op (= the target context), or inline inside `start()` if the op came first.
+// Construction (`sf.conn`), `start()` (`sf.sstart`) and the point after arming (`sf.armed`: the completion may now
+// run on another thread while this one is still inside `start()`) are preemption points; the destructor logs
+// `sf.sopdtor`.  After arming `start()` does not touch its operation state again (the completion may destroy it).
+template <class R>
+struct sched_op
+{
+    std::decay_t<R> r;
+    trigger* t;
+    sched_op(sched_op&&) = delete;
+    sched_op& operator=(sched_op&&) = delete;
+    template <class R_>
+    sched_op(R_&& r_, trigger* t_)
+      : r(std::forward<R_>(r_))
+      , t(t_)
+    {
+        pt("sf.conn", nullptr, 0, 0);
+    }
+    ~sched_op() { nt("sf.sopdtor", nullptr, 0, 0); }
+    void start() & noexcept
+    {
+        pt("sf.sstart", nullptr, 0, 0);
+        trigger* tt = t;
+        tt->fire_fn = [this](int ch, long long arg) {
+            auto rr = std::move(r);    // receiver on the stack before it is completed
+            if (ch == 0) ex::set_value(std::move(rr));
+            else if (ch == 2)
+                ex::set_error(std::move(rr), std::make_exception_ptr(verif_exc{arg}));
+            else
+                ex::set_stopped(std::move(rr));
+        };
+        tt->armed = true;
+        if (tt->has_pending) fire(tt, tt->pch, tt->parg);
+        else
+            pt("sf.armed", nullptr, 0, 0);
+    }
+};
+struct manual_scheduler
+{
+    trigger* t;
+    struct sender
+    {
+        PIKA_STDEXEC_SENDER_CONCEPT
+        template <template <class...> class Tuple, template <class...> class Variant>
+        using value_types = Variant<Tuple<>>;
+        template <template <class...> class Variant>
+        using error_types = Variant<std::exception_ptr>;
+        static constexpr bool sends_done = true;
+        trigger* t;
+        template <class R>
+        sched_op<R> connect(R&& r) const
+        {
+            return {std::forward<R>(r), t};
+        }
+        struct env
+        {
+            trigger* t;
+            friend manual_scheduler tag_invoke(ex::get_completion_scheduler_t<ex::set_value_t>, env const& e) noexcept
+            {
+                return {e.t};
+            }
+        };
+        env get_env() const& noexcept { return {t}; }
+    };
+    friend sender tag_invoke(ex::schedule_t, manual_scheduler s) { return {s.t}; }
+    bool operator==(manual_scheduler const& o) const noexcept { return t == o.t; }
+    bool operator!=(manual_scheduler const& o) const noexcept { return !(*this == o); }
 };
 
 // ---------------------------------------------------------------- ABORT HANDLER
@@ -368,6 +480,32 @@ static void do_complete(trigger* t, int ch, long long arg)
     nt("ret", nullptr, 0, 0);
 }
 
+// schedule_from cases (C03x): a request that arrives before its operation state was started only marks the
+// trigger (`ret.pending`: not a model event); otherwise the completion runs on this thread
+static void do_complete_sf(trigger* t, int ch, long long arg)
+{
+    pt(t->idx == 0 ? "inv.complete" : "inv.sched", nullptr, t->idx, arg);
+    if (t->armed)
+    {
+        fire(t, ch, arg);
+        nt("ret", nullptr, 0, 0);
+    }
+    else
+    {
+        t->has_pending = true;
+        t->pch = ch;
+        t->parg = arg;
+        nt("ret.pending", nullptr, 0, 0);
+    }
+}
+static int sched_channel_of(std::string const& name)    // sched_<ch>
+{
+    if (name == "sched_value") return 0;
+    if (name == "sched_stopped") return 1;
+    if (name == "sched_error") return 2;
+    return -1;
+}
+
 using consume_fn = std::function<void(int k)>;    // connect + start for consumer k
 
 template <std::size_t... Is>
@@ -427,7 +565,26 @@ static void run_one(case_t const& c)
     consume_fn consume, discard;
     std::function<void()> start_wa;
 
-    if (kind == "when_all_vector")
+    if (kind == "schedule_from")
+    {
+        // trg[0]: the predecessor (manual leaf sending a counted value), trg[1]: the scheduler
+        trg.push_back(new trigger{0});
+        trg.push_back(new trigger{1});
+        auto snd = ex::schedule_from(manual_scheduler{trg[1]}, manual_sender<cval>{trg[0]});
+        using S = decltype(snd);
+        if (c.geti("life", 0) != 0)
+        {
+            install_segv_handler();
+            auto* h = new self_deleting_op<S>(std::move(snd), 0);
+            start_wa = [h] { ex::start(h->op); };
+        }
+        else
+        {
+            auto* op = new auto(ex::connect(std::move(snd), term_recv{0}));
+            start_wa = [op] { ex::start(*op); };
+        }
+    }
+    else if (kind == "when_all_vector")
     {
         int n = int(c.geti("n", 2));
         if (n < 0) n = 0;
@@ -581,7 +738,8 @@ static void run_one(case_t const& c)
         }
     }
 
-    bool wa = kind == "when_all" || kind == "when_all_vector";
+    bool const sf = kind == "schedule_from";
+    bool wa = kind == "when_all" || kind == "when_all_vector" || sf;
     bool const life_mode = !wa && c.geti("life", 0) != 0;
     bool const wa_life = wa && c.geti("life", 0) != 0;
     std::vector<std::function<void()>> bodies;
@@ -591,7 +749,14 @@ static void run_one(case_t const& c)
             for (auto const& op : c.threads[i])
             {
                 int ch = channel_of(op.name);
-                if (ch >= 0)
+                if (sf && (ch >= 0 || sched_channel_of(op.name) >= 0))
+                {
+                    // complete_<ch> 0 arg (predecessor) / sched_<ch> arg (scheduler)
+                    if (ch >= 0) do_complete_sf(trg[0], ch, op.args.size() > 1 ? op.args[1] : 0);
+                    else
+                        do_complete_sf(trg[1], sched_channel_of(op.name), op.args.size() > 0 ? op.args[0] : 0);
+                }
+                else if (ch >= 0)
                 {
                     // when_all: complete_<ch> idx arg;  shared-state kinds: complete_<ch> arg
                     long long idx = 0, arg = 0;
